@@ -104,20 +104,12 @@ def execute(item):
     return r
 
 
+KQ = ("NL", "CE", "J")
+KT = KQ + ("W3", "W0", "CO", "BL", "WT", "NLI", "CD", "CEE", "UP", "LO")
+
+
 def items(tier):
-    seeds = corpus.seed_ids(("fix", "cls", "gen"))
-    big = corpus.seed_ids(("big",))
-    out = universe.zero_dev(seeds + big)
-    sq = corpus.small_slice()
-    kinds_q = ("NL", "CE", "J", "W3", "W0", "CO", "BL", "WT")
-    if tier == "quick":
-        out += universe.one_dev(sq, kinds_q)
-        out += configs_k1.items_for_own_fixtures(limit_values=2)
-    else:
-        out += universe.one_dev(corpus.seed_ids(("fix", "cls")), kinds_q + ("NLI", "CD", "CEE", "UP", "LO"))
-        out += universe.one_dev(corpus.seed_ids(("gen",)), kinds_q)
-        out += configs_k1.items_for_own_fixtures(limit_values=None)
-    return out
+    return common.pipe_items(tier, KQ, KT, k1=True)
 
 
 def reproduce(item):
@@ -135,9 +127,7 @@ def main(tier):
         "rules_documented": len(spec),
         "rules_observed_firing": len(fired),
         "undocumented_rules_fired": sorted(r for r in fired if r not in spec),
-        "bound": "0 deviations: all seeds x {default, jcl, indent_only}; 1 layout deviation: "
-        + ("S_q" if tier == "quick" else "all fix/cls/gen seeds")
-        + "; 1 configuration deviation (K1) of each rule on its own fixture",
+        "bound": common.bound_text(tier, KQ, KT),
     }
     return report.finish(
         PROP,
